@@ -29,7 +29,8 @@ CHECK = Check(
     streams=[
         hostile_emit("c02"),
         hrun_stream("c02ship", "the same hostile calls on the SHIPPED inspectors of /repo/testobj_ins (13 testobj types)"),
-        hrun_stream("c02reflect", "ReflectInspector.Get on the shipped types: value of the result against Model/ReflectIns.v"),
+        hrun_stream("c02reflect", "ReflectInspector.Get on the shipped types and on defined-type units (type Lang string as map key ...): "
+                                  "value of the result against Model/ReflectIns.v; Get / GetTo return (defined units)"),
         hrun_stream("c02builtin", "static / strings / map[string]any / reflect inspectors and Assign with hostile arguments built in Go"),
     ],
     rule=("one inspector call per case, observed as ok (returned) or PANIC:<kind> (recover) or ABORT:<why> (the runner process died: "
@@ -47,9 +48,15 @@ CHECK = Check(
           "Reset, Unmarshal (15 inputs x 3 encodings), TypeName; nil-pointer-key and NaN-key maps; and every method on the hostile "
           "argument forms typed nil *T, **T to nil, nil **T, untyped nil, foreign. c02ship: the same generator over the 13 "
           "declarations of /repo/testobj with the shipped testobj_ins. c02reflect: ReflectInspector.Get on the shipped types, every "
-          "path + mangled paths, 8 argument forms. c02builtin: 4 built-in inspectors x up to 40 arguments (typed nil pointers of "
+          "path + mangled paths, 8 argument forms; and on 9 DEFINED-type units (same Kind(), other type identity: maps keyed by "
+          "defined string / int32 / uint16 / uint64 / uint8 / bool / float64 types and by pointers to them, defined slice, byte "
+          "slice, map and struct types as values, elements, fields, roots, behind pointers and nested), key present / absent / nil "
+          "map / garbage segment, each path judged twice - the value Get returns (model) and Get + GetTo return at all (spec ok). c02builtin: 4 built-in inspectors x up to 40 arguments (typed nil pointers of "
           "every kind, nil / empty containers, nil elements, foreign types, struct with nil embedded pointer, self-referential "
           "pointer, channels, funcs, arrays) x every method with 25 paths / 10 operators / 9 operands / 16 assigned values; "
+          "reflect Get / GetTo with paths that hit and miss the entries of 15 arguments whose keys only their %v text names (struct, "
+          "array, interface, pointer, channel, complex keys, key types with a String method incl. a panicking one) or whose "
+          "types are defined pointer / recursive map / embedded map types and defined types behind interfaces; "
           "Assign and AssignBuf: 12 destinations x 31 sources. distinct = distinct input text, all non-trivial."),
     assumptions=["out-parameters (*buf, *result), iterator and byte buffer are non-nil, as the signatures require; Assign's destination "
                  "pointer is non-nil",
